@@ -26,6 +26,9 @@ def is_app_of(t, f) -> bool:
     return z3.is_app(t) and t.decl().eq(f)
 
 
+# optional schema families, switched on per contract (options = {'schemas': [...]})
+EXTRA = set()
+
 _MULS = {}
 _COLLECT = {}     # formula id -> (formula, p2, bls, dms, ipows)
 _AX = {}          # key -> list[(name, axiom)]
@@ -167,6 +170,9 @@ def _ax_dm(t, last, heavy):
         out.append(('DM.def', z3.Implies(k >= 0, z3.And(num == q * den + r, r >= 0, r < den))))
         out.append(('DM.nonneg', z3.Implies(z3.And(k >= 0, num >= 0), z3.And(q >= 0, q <= num))))
         out.append(('DM.small', z3.Implies(z3.And(k >= 0, num >= 0, num < den), z3.And(q == 0, r == num))))
+        if 'DM1' in EXTRA:
+            # DM.one (option 'DM1'): 2^k <= x < 2^(k+1)  ->  x div 2^k == 1  and  x mod 2^k == x - 2^k
+            out.append(('DM.one', z3.Implies(z3.And(k >= 0, num >= den, num < 2 * den), z3.And(q == 1, r == num - den))))
         if z3.is_app(num) and num.decl().kind() == z3.Z3_OP_MUL and num.num_args() == 2:
             for a_, pj in ((num.arg(0), num.arg(1)), (num.arg(1), num.arg(0))):
                 if is_app_of(pj, pow2):
@@ -216,7 +222,35 @@ def _ax_mul(t):
             out.append(('S2i', z3.Implies(z3.And(x > 0, k >= 0), bl(t) == bl(x) + k)))
             out.append(('M.sign', z3.Implies(k >= 0, z3.And((t >= 0) == (x >= 0), (t > 0) == (x > 0), (t == 0) == (x == 0)))))
             out.append(('M.ge', z3.Implies(z3.And(x >= 0, k >= 0), t >= x)))
+            if 'MM' in EXTRA:
+                out.append(('M.ge2', z3.Implies(z3.And(x >= 0, k >= 1), t >= 2 * x)))
             break
+    return out
+
+
+
+def _mul_parts(t):
+    for x, pk in ((t.arg(0), t.arg(1)), (t.arg(1), t.arg(0))):
+        if is_app_of(pk, pow2):
+            return x, pk.arg(0)
+    return None
+
+
+def _ax_mm(t1, t2):
+    """
+    MM (option 'MM'): two products a*2^j, b*2^k compare like a and b*2^(k-j) when 0 <= j <= k:
+      a*2^j < b*2^k  <->  a < b*2^(k-j)   (same for > and ==)
+    """
+    out = []
+    p1, p2_ = _mul_parts(t1), _mul_parts(t2)
+    if p1 is None or p2_ is None:
+        return out
+    for (ta, (a, j), tb, (b, k)) in ((t1, p1, t2, p2_), (t2, p2_, t1, p1)):
+        d = pow2(z3.simplify(k - j))
+        g = z3.And(j >= 0, j <= k)
+        out.append(('MM.lt', z3.Implies(g, (ta < tb) == (a < b * d))))
+        out.append(('MM.gt', z3.Implies(g, (tb < ta) == (b * d < a))))
+        out.append(('MM.eq', z3.Implies(g, (ta == tb) == (a == b * d))))
     return out
 
 
@@ -334,9 +368,9 @@ def instantiate(formulas, rounds: int = 2, heavy: bool = True, quant=None):
                 for (j, k) in p2l:
                     emit(('bp', i, j), lambda x=x, k=k: _ax_bp(x, k))
         for i, t in sorted(dms.items()):
-            if ('dm', i, False, heavy) in done:
+            if ('dm', i, False, heavy, 'DM1' in EXTRA) in done:
                 continue
-            emit(('dm', i, last, heavy), lambda t=t: _ax_dm(t, last, heavy))
+            emit(('dm', i, last, heavy, 'DM1' in EXTRA), lambda t=t: _ax_dm(t, last, heavy))
         # pairs of divisions (by pow2) of the same numerator
         divs = [(i, t) for i, t in sorted(dms.items())
                 if t.decl().kind() == z3.Z3_OP_IDIV and is_app_of(t.arg(1), pow2)]
@@ -366,7 +400,22 @@ def instantiate(formulas, rounds: int = 2, heavy: bool = True, quant=None):
         if not last:
             for f_ in work + axioms:
                 for i, t in _MULS.get(f_.get_id(), {}).items():
-                    emit(('mul', i), lambda t=t: _ax_mul(t))
+                    emit(('mul', i, 'MM' in EXTRA), lambda t=t: _ax_mul(t))
+        if 'MM' in EXTRA and not last:
+            # products with a power of two: those of the query plus q*2^k of every exact-division definition
+            ml = {}
+            for f_ in work:
+                ml.update(_MULS.get(f_.get_id(), {}))
+            for i, t in sorted(dms.items()):
+                if is_app_of(t.arg(1), pow2):
+                    qd = (t.arg(0) / t.arg(1)) * t.arg(1)
+                    _KEEP.append(qd)
+                    ml[qd.get_id()] = qd
+            mll = sorted(ml.items())
+            for x in range(len(mll)):
+                for y in range(x + 1, len(mll)):
+                    (i, t1), (j, t2) = mll[x], mll[y]
+                    emit(('mm', i, j), lambda t1=t1, t2=t2: _ax_mm(t1, t2))
     if quant:
         axioms = axioms + quantified_pairwise()
         names = names + ['Q'] * len(quantified_pairwise())
@@ -441,6 +490,10 @@ def selftest_schemas(limit: int = 40) -> dict:
                 bad['S4b'] = (k,)
             if P(k) <= k:
                 bad['P.ge'] = (k,)
+            if k >= 1 and x * P(k) < 2 * x:
+                bad['M.ge2'] = (x, k)
+            if P(k) <= x < 2 * P(k) and (x // P(k) != 1 or x % P(k) != x - P(k)):
+                bad['DM.one'] = (x, k)
             for j in range(k, 10):
                 if (x * P(j)) % P(k) != 0:
                     bad['S6'] = (x, j, k)
@@ -456,6 +509,12 @@ def selftest_schemas(limit: int = 40) -> dict:
                     bad['DD.nest'] = (x, a, b)
                 if (x // P(a)) % P(b - a) != (x % P(b)) // P(a):
                     bad['DD.mod'] = (x, a, b)
+        for b in range(0, 12):
+            for j in range(0, 5):
+                for k in range(j, 7):
+                    if ((x * P(j) < b * P(k)) != (x < b * P(k - j)) or (b * P(k) < x * P(j)) != (b * P(k - j) < x)
+                            or (x * P(j) == b * P(k)) != (x == b * P(k - j))):
+                        bad['MM'] = (x, j, b, k)
         if BL(x + 1) > BL(x) and x + 1 != P(BL(x)):
             bad['S7'] = (x,)
         if BL(x + 1) > BL(x) + 1:
